@@ -339,8 +339,9 @@ func genC09(tier string, rng *RNG, w *CaseWriter) {
 		// each call is its own case (the running number keeps the terms distinct)
 		w.Emit(fmt.Sprintf("(mk @ID@ %d %d)", 1000000*kind+n, out), desc, desc["outcome"].(string), true)
 	}
+	escalate := false
 	budget := func(q, t int) int {
-		if tier == "thorough" {
+		if tier == "thorough" || escalate {
 			return t
 		}
 		return q
@@ -371,11 +372,14 @@ func genC09(tier string, rng *RNG, w *CaseWriter) {
 		sort.Strings(added)
 		w.Extra["partial_operation_sites"] = len(keys)
 		w.Extra["sites_not_in_reviewed_inventory"] = added
-		out := 0
+		// advisory: new partial-operation sites do not fail the check (a loop-bounded index or a map
+		// lookup in a refactoring is harmless); they widen the search instead: the call stream below runs
+		// with the thorough budget so that a new site that can panic is more likely to be hit.
 		if len(added) > 0 && len(want) > 0 {
-			out = 7
+			escalate = true
+			w.Notes = append(w.Notes, fmt.Sprintf("NOTE property=C09 %d partial-operation site(s) not in the reviewed inventory (advisory; stream budget raised): %s", len(added), strings.Join(added, " ; ")))
 		}
-		w.Emit(fmt.Sprintf("(mk @ID@ 0 %d)", out), map[string]any{"kind": "site-inventory", "sites": len(keys), "new_sites": added}, "site-inventory", true)
+		w.Emit("(mk @ID@ 0 0)", map[string]any{"kind": "site-inventory", "sites": len(keys), "new_sites": added}, "site-inventory", true)
 		os.WriteFile(filepath.Join(w.OutDir, "panic_sites_current.json"), mustJSON(keys), 0o644)
 	}
 	// (1) any bytes as envelopes of both media types: structured deviations and mutations of valid envelopes
